@@ -269,3 +269,25 @@ def explicit_keywords(fnode, call):
         else:
             return None
     return out
+
+
+def bind_call(call, func_node, skip_first=False):
+    """{parameter name: argument node} of `call` against the signature of `func_node` (positional, keyword, `**name` with a literal
+    dict resolved by explicit_keywords when fnode is given); parameters left to their defaults are absent; None when a starred
+    argument prevents the binding."""
+    a = func_node.args
+    params = [x.arg for x in a.posonlyargs + a.args]
+    if skip_first and params:
+        params = params[1:]
+    if any(isinstance(x, ast.Starred) for x in call.args) or len(call.args) > len(params) and a.vararg is None:
+        return None
+    out = dict(zip(params, call.args))
+    names = set(params) | {x.arg for x in a.kwonlyargs}
+    for k in call.keywords:
+        if k.arg is None:
+            continue  # **kwargs pass-through: may only fill what is not bound otherwise
+        if k.arg in out:
+            return None
+        if k.arg in names:
+            out[k.arg] = k.value
+    return out
